@@ -9,6 +9,8 @@ import (
 	"strings"
 	"time"
 
+	"github.com/whawty/auth/zzverif/simfs"
+
 	"github.com/whawty/auth/zzverif/simrt"
 )
 
@@ -115,6 +117,7 @@ func propC14(r *Run) {
 		cfg := GenConfig(r, "/srv/whawty/base")
 		w := newWorld(r, rr, cfg, 1+r.Choose("ninst", 2))
 		n := 3 + r.Choose("nwrites", 10)
+		faultRun := r.Choose("fault-class", 4) == 0
 		var pws []string
 		users := []string{"alice", "bob", "carol"}
 		salts := map[string]bool{}
@@ -132,6 +135,65 @@ func propC14(r *Run) {
 			}
 			pws = append(pws, pw)
 			var err error
+			// a quarter of the runs inject single I/O faults: a write that then still reports
+			// success must have produced a record as well-formed as any other
+			faulty := faultRun && r.Choose("inject-fault", 3) == 0
+			if faulty {
+				k := w.fs.NOps + r.Choose("fault-at", 16)
+				pick := r.Choose("fault-errno", 4)
+				done := false
+				w.fs.Plan = func(seq int, kind, real string) *simfs.Fault {
+					if done || seq < k {
+						return nil
+					}
+					kk := kind
+					if kk == "open" && strings.Contains(real, "/.tmp/") {
+						kk = "create"
+					}
+					if e := errnosFor[kk]; len(e) > 0 {
+						done = true
+						r.Count("fault:" + e[pick%len(e)].Error())
+						if kk == "write" && pick%2 == 1 {
+							return &simfs.Fault{Errno: e[pick%len(e)], Short: 1}
+						}
+						return &simfs.Fault{Errno: e[pick%len(e)]}
+					}
+					return nil
+				}
+			}
+			if faulty {
+				exists := w.model[u] != nil
+				if exists {
+					w.guard("update", func() { err = w.dirs[inst].UpdateUser(u, pw) })
+				} else {
+					w.guard("add", func() { err = w.dirs[inst].AddUser(u, pw, false) })
+				}
+				w.fs.Plan = nil
+				r.Logf("#%d t=%d inst%d faulty write %s pw=%s -> %v", i, time.Now().Unix(), inst, u, simrt.Q(pw), err)
+				if err != nil {
+					// reported failure: what it may leave behind is C15's business; bring the model in
+					// line with the disk (old record, or -- known finding -- the new one) and go on
+					_, content, ok := w.userFile(u)
+					if !ok || content == "" {
+						delete(w.model, u)
+					} else if m := w.model[u]; m != nil && !RefVerifyLenient(w.sets, content, m.PW) && RefVerifyLenient(w.sets, content, pw) {
+						line, rest := FirstLine(content)
+						if rec, perr := ParseStrict(line); perr == nil {
+							m.PW, m.Set, m.Stamp, m.Aux = pw, w.sets[uint(rec.ParamID)], rec.Stamp, rest
+						}
+					}
+					continue
+				}
+				if exists {
+					w.mUpdate(u, pw, inst)
+				} else {
+					w.mAdd(u, pw, false, inst)
+				}
+				w.segPos = 0 // the salt was drawn somewhere during this (partly failed) call
+				w.checkWritten(inst, u)
+				w.confinement()
+				continue
+			}
 			if _, ok := w.model[u]; ok {
 				w.guard("update", func() { err = w.dirs[inst].UpdateUser(u, pw) })
 				w.mUpdate(u, pw, inst)
